@@ -14,7 +14,7 @@ Op language (one case = one array, any number of *rounds*):
     sched <tid | tick:<ms>>…                 runs the round: initial advance of every thread (in order, each at its clock),
                                              the schedule, round-robin drain  => observation
 
-Observation of a round: `res=[<now>:<val>,…|…] pts=[<hook>,…|…] final=[<start>:<c0>:…:<c4>:<minRt>:<maxConc>,…] clock=<ms>`
+Observation of a round: `[round] res=[<now>:<val>,…|…] pts=[<hook>,…|…] final=[<start>:<c0>:…:<c4>:<minRt>:<maxConc>,…] clock=<ms>`
 (per thread: the clock reading and return value of each operation, the yield points it parked at; the valid buckets at the
 final clock read without refresh).
 
@@ -109,7 +109,7 @@ def showFinal (sh : Shared) (clock : Nat) : String :=
 def showRound (r : Rec) : String :=
   let res := "|".intercalate (r.c.th.map fun t => ",".intercalate (t.res.map fun x => s!"{x.now}:{showVal x.val}"))
   let pts := "|".intercalate (r.pts.toList.map fun p => ",".intercalate p.toList)
-  s!"res=[{res}] pts=[{pts}] final={showFinal r.c.sh r.c.clock} clock={r.c.clock}"
+  s!"[round] res=[{res}] pts=[{pts}] final={showFinal r.c.sh r.c.clock} clock={r.c.clock}"
 
 /-! ## oracle side: parsing the implementation's observation -/
 
